@@ -77,6 +77,7 @@ def generate(rng: random.Random, tier: str, seed: int) -> dict:
     sc = {"base": {k: base[k] for k in ("nodes", "context", "init_data")}, "modes": modes, "n": 450,
           "sched_seed": rng.getrandbits(48), "failing": None, "traced": rng.random() < 0.5,
           "launches_run_space": rng.random() < 0.6,     # mode `launches`: each launch is a one-run run-space launch, directory trace output
+          "profile_paths": rng.random() < 0.35,        # queue mode: the job's registry profile names search paths (the sandbox directory)
           "bad_profile_module": rng.random() < 0.35,   # queue mode: the job's registry profile names a module that cannot be imported
           "fire_forget": rng.random() < 0.5,           # queue mode: jobs enqueued without a Future (nobody awaits their result)
           "cli_transport": rng.random() < 0.5,
@@ -148,6 +149,14 @@ def _containers() -> dict[str, int]:
                             out[f"{mname}.{val.__name__}.{a2}"] = size(v2)
             except Exception:  # noqa: BLE001 - exotic containers (weak dictionaries changing size) are skipped, never fatal
                 continue
+    # interpreter-wide registries the framework may write to
+    out["sys.path"] = len(_sys.path)
+    out["sys.meta_path"] = len(_sys.meta_path)
+    out["sys.path_hooks"] = len(_sys.path_hooks)
+    import atexit as _atexit
+    out["atexit.callbacks"] = _atexit._ncallbacks() if hasattr(_atexit, "_ncallbacks") else 0
+    import warnings as _warnings
+    out["warnings.filters"] = len(_warnings.filters)
     out["logging.loggerDict"] = len(logging.root.manager.loggerDict)
     out["logging.handlers"] = sum(len(getattr(lg, "handlers", [])) for lg in list(logging.root.manager.loggerDict.values()) + [logging.root])
     return out
@@ -547,6 +556,11 @@ def _queue_mode(sc: dict, total: int, roots: dict, lg, sampler=None) -> None:
         if sc.get("bad_profile_module"):
             from semantiva.registry import RegistryProfile
             profile = RegistryProfile(modules=["svsim.lib", "svsim_optional_plugin_that_is_not_installed"])
+        if sc.get("profile_paths"):
+            from semantiva.registry import RegistryProfile
+            import os as _os
+            profile = RegistryProfile(modules=list(profile.modules) if profile else ["svsim.lib", "semantiva.examples.test_utils"],
+                                      paths=[_os.getcwd(), _os.path.join(_os.getcwd(), "plugins")])
 
         def client_fire_forget():
             # Nobody awaits a result. The client itself marks run starts (sample points are quiescent: job i has reported and
@@ -651,6 +665,8 @@ def execute(sc: dict, seed: int) -> dict:
             stats["probe.fresh_pipelines_loaded_from_rewritten_yaml_path"] = 1
         if sc.get("shared_orchestrator") and "fresh" in sc["modes"]:
             stats["probe.fresh_pipelines_sharing_one_orchestrator"] = 1
+        if sc.get("profile_paths") and "queue" in sc["modes"]:
+            stats["probe.queue_job_profile_with_search_paths"] = 1
         if sc.get("bad_profile_module") and "queue" in sc["modes"]:
             stats["probe.queue_job_profile_with_unimportable_module"] = 1
             stats["fault.module_import_error"] = 1
